@@ -46,7 +46,26 @@ const FETCHED: u32 = 0x0d00;
 
 fn edge_addr(e: &mut Ent) -> u32 {
     let edges: [u32; 10] = [0x000000, 0x0000ff, 0x400000, 0x5fffff, 0xfee000, 0xfee0ff, 0xffbf20, 0xffff1f, 0xffff20, 0xffffe9];
-    let a = match e.below(8) {
+    let a = match e.below(9) {
+        8 => {
+            // a plain location that shares something with a register somebody owns: the same offset in the *other*
+            // register block (timer registers H'FFFF80.. <-> H'FEE060.., port DRs H'FFFFD0.. <-> H'FEE0B0.., bus
+            // controller H'FEE020.. <-> H'FFFF40.., DDRs H'FEE000.. <-> H'FFFF20..), or the same low 8 / 16 / 20 bits in
+            // on-chip RAM or DRAM
+            let owned = e.pick(&[0xffff80u32, 0xffff82, 0xffff84, 0xffff86, 0xffff88, 0xffffd0, 0xffffd3, 0xffffda, 0xfee020, 0xfee021, 0xfee026, 0xfee000, 0xfee005]) + e.below(2);
+            match e.below(5) {
+                0 | 1 => {
+                    if owned >= 0xffff20 {
+                        0xfee000 + (owned - 0xffff20)
+                    } else {
+                        0xffff20 + (owned - 0xfee000)
+                    }
+                }
+                2 => 0xffc000 | (owned & 0xff),
+                3 => 0x400000 | (owned & 0xffff) | (e.below(0x20) << 16),
+                _ => 0x400000 | (owned & 0xf_ffff) | (e.below(2) << 20),
+            }
+        }
         0..=3 => {
             let ed = e.pick(&edges);
             (ed as i64 + e.below(13) as i64 - 6).clamp(0, 0xff_ffff) as u32
@@ -121,12 +140,18 @@ fn run_history(emu: &mut Emu, ops: &[Op]) -> Result<(usize, usize, usize), Strin
             // time passes with the 8-bit timer counting: the owning peripheral may overwrite *its* registers (TCNT0,
             // TCSR0) - every other location keeps reading what was written to it (the final comparison sees any
             // byte the peripheral touched that it does not own)
-            let tcr = 0x01 | ((op.value as u8) & 0xf8);
-            if emu.cpu.bus.write(0xffff80, tcr).is_err() {
-                result = Err(format!("op {} {:?}: the store to TCR0 failed", idx, op));
-                break;
+            // (a *quiet* tick, one in three: nothing is written - time just passes. If the TCR0 the history left
+            // selects no clock, the counter and its flags are plain storage like everything else and must not move)
+            let quiet = (op.value >> 16) % 3 == 0;
+            if !quiet {
+                let tcr = 0x01 | ((op.value as u8) & 0xf8);
+                if emu.cpu.bus.write(0xffff80, tcr).is_err() {
+                    result = Err(format!("op {} {:?}: the store to TCR0 failed", idx, op));
+                    break;
+                }
+                model.insert(0xffff80, tcr);
             }
-            model.insert(0xffff80, tcr);
+            let counting = get(&model, 0xffff80) & 7 != 0;
             for _ in 0..1 + (op.value >> 8) % 40 {
                 let cpu = &mut emu.cpu;
                 if !matches!(guarded(|| crate::cpu::verif_hooks::update_modules(cpu, 255)), Ok(Ok(()))) {
@@ -139,9 +164,11 @@ fn run_history(emu: &mut Emu, ops: &[Op]) -> Result<(usize, usize, usize), Strin
             for a in 0xffe7fcu32..0xffe800 {
                 raw_set(&mut emu.cpu.bus, a, get(&model, a));
             }
-            for a in [0xffff88u32, 0xffff82] {
-                if let Some(v) = raw_get(&emu.cpu.bus, a) {
-                    model.insert(a, v);
+            if counting {
+                for a in [0xffff88u32, 0xffff82] {
+                    if let Some(v) = raw_get(&emu.cpu.bus, a) {
+                        model.insert(a, v);
+                    }
                 }
             }
             continue;
